@@ -214,6 +214,24 @@ class World(BaseWorld):
             super().close()
 
     # ------------------------------------------------------------ executions
+    def _fresh_inputs(self, fmt, spec_obj=None):
+        """A new language graph + factory + the model loaded from its file.  These all worked
+        for the first execution of the scenario: a failure later in the same process is a
+        dependence on history."""
+        spec_obj = copy.deepcopy(self.desc['spec']) if spec_obj is None else spec_obj
+
+        def build():
+            lg = self.LanguageGraph(spec_obj)
+            fac = self.LanguageClassesFactory(lg)
+            return lg, fac, self.Model.load_from_file(self.files[fmt], fac)
+        o = call(build)
+        if o.raised:
+            raise Violation('C16.same', f'building the language graph / classes / model (*.{fmt}) failed '
+                                        f'although it succeeded for the first execution of this '
+                                        f'scenario in this process: {o.exc!r}')
+        lg, fac, model = o.value
+        return lg, fac, model, spec_obj
+
     def _pipeline(self, lg, model, attach=True, calc=True):
         g = self.AttackGraph(lg, model)
         if attach:
@@ -228,17 +246,17 @@ class World(BaseWorld):
         if key == (fmt, True, True):
             return self.ref_digest[fmt]
         if key not in self.opt_digest:
-            lg = self.LanguageGraph(copy.deepcopy(self.desc['spec']))
-            fac = self.LanguageClassesFactory(lg)
-            model = self.Model.load_from_file(self.files[fmt], fac)
+            lg, fac, model, _ = self._fresh_inputs(fmt)
             o = call(self._pipeline, lg, model, attach, calc)
             self.opt_digest[key] = None if o.raised else graph_digest(o.value)
         return self.opt_digest[key]
 
     def _exec_api(self, fmt, spec=None, keep=False):
         spec_obj = copy.deepcopy(self.desc['spec']) if spec is None else spec
-        lg = self.LanguageGraph(spec_obj)
-        fac = self.LanguageClassesFactory(lg)
+        lf = call(lambda: (lambda lg_: (lg_, self.LanguageClassesFactory(lg_)))(self.LanguageGraph(spec_obj)))
+        if lf.raised:
+            return None, 'language graph / classes:' + lf.exc_name()
+        lg, fac = lf.value
         lo = call(self.Model.load_from_file, self.files[fmt], fac)
         if lo.raised:
             return None, 'model load:' + lo.exc_name()
@@ -339,10 +357,7 @@ class World(BaseWorld):
         """Two graphs are generated from one model first, only then the attackers
         are attached and the analysis runs - on the first graph, then the second."""
         fmt = op['model_fmt']
-        spec_obj = copy.deepcopy(self.desc['spec'])
-        lg = self.LanguageGraph(spec_obj)
-        fac = self.LanguageClassesFactory(lg)
-        model = self.Model.load_from_file(self.files[fmt], fac)
+        lg, fac, model, spec_obj = self._fresh_inputs(fmt)
         a, b = call(self.AttackGraph, lg, model), call(self.AttackGraph, lg, model)
         if a.raised or b.raised:
             raise SetupRejected('generate:late')
@@ -411,10 +426,7 @@ class World(BaseWorld):
             raise Violation('C16.inputs', f'{where}: the language specification was modified')
 
     def do_inputs(self, op):
-        spec_obj = copy.deepcopy(self.desc['spec'])
-        lg = self.LanguageGraph(spec_obj)
-        fac = self.LanguageClassesFactory(lg)
-        model = self.Model.load_from_file(self.files[op['model_fmt']], fac)
+        lg, fac, model, spec_obj = self._fresh_inputs(op['model_fmt'])
         before = canon(model._to_dict())
         o = call(self._pipeline, lg, model)
         if o.raised:
@@ -539,10 +551,7 @@ class World(BaseWorld):
         generated again from the same objects.  The edited model is saved; a fresh language
         graph + the saved model must give the very same graph."""
         fmt = op['model_fmt']
-        spec_obj = copy.deepcopy(self.desc['spec'])
-        lg = self.LanguageGraph(spec_obj)
-        fac = self.LanguageClassesFactory(lg)
-        model = self.Model.load_from_file(self.files[fmt], fac)
+        lg, fac, model, spec_obj = self._fresh_inputs(fmt)
         if op.get('graph_first', True):
             o = call(self._pipeline, lg, model)
             if o.raised:
@@ -586,8 +595,13 @@ class World(BaseWorld):
         sv = call(model.save_to_file, p)
         if sv.raised:
             raise SetupRejected('edit:save:' + sv.exc_name())
-        lg2 = self.LanguageGraph(copy.deepcopy(self.desc['spec']))
-        m2 = call(self.Model.load_from_file, p, self.LanguageClassesFactory(lg2))
+        lg2 = None
+
+        def load_saved():
+            nonlocal lg2
+            lg2 = self.LanguageGraph(copy.deepcopy(self.desc['spec']))
+            return self.Model.load_from_file(p, self.LanguageClassesFactory(lg2))
+        m2 = call(load_saved)
         if m2.raised:
             raise SetupRejected('edit:load:' + m2.exc_name())
         b = call(self._pipeline, lg2, m2.value)
